@@ -56,6 +56,7 @@ RULE = (
     'downstream calls; a statistical case in ~1/4 of the cases (>=1000 individual-level values). Non-trivial: '
     'hierarchical or filter posterior with >=2 individuals and a pooled/heterogeneous dimension. Distinct = structural '
     'projection (kind, composition, n_ids, likelihood structure, ID style, shapes).')
+RULE += (' ' + 'Added: param_map that swaps the dataset names of two model parameters; likelihood names after dataset pointwise evaluation.')
 ASSUMPTIONS = [
     'layout models (vf/hbuild.layout, c13.names_ids, llbuild.ll_names) are written from the docstrings and validated '
     'against scores by C02 / C13 / C01',
